@@ -64,7 +64,7 @@ theorem bashSponge_eq_standard_partial (F : Bytes → Bytes) (op : OpB) (data : 
   stepGen_eq_fold F op data st h
 
 example : (hashStart 256).pos < (hashStart 256).bufLen := by decide
-example : stepGen id xorOp [1, 2, 3] ⟨[0, 0], 2, 1⟩ = (⟨[3, 2], 2, 0⟩, [0, 0, 0]) := by decide
+example : foldBytes id xorOp [1, 2, 3] ⟨[0, 0], 2, 1⟩ = (⟨[2, 2], 2, 0⟩, [0, 0, 0]) := by decide
 
 /-- every hash level starts in a state with `pos < buf_len` -/
 theorem bashHashStart_inv (l : Nat) (hl : l ≤ 256) : (hashStart l).pos < (hashStart l).bufLen := by
@@ -82,7 +82,8 @@ theorem bashHash_chunk_independent (F : Bytes → Bytes) (chunks : List Bytes) (
   rw [e, this]; rfl
 
 example : [[1, 2], [], [3]].foldl (fun st c => hashStepH id c st) (hashStart 256)
-    = hashStepH id [1, 2, 3] (hashStart 256) := by decide
+    = hashStepH id [1, 2, 3] (hashStart 256) :=
+  bashHash_chunk_independent id _ _ (bashHashStart_inv 256 (by decide))
 
 /-- chunk independence of every `…Step` of the automaton (absorb, squeeze, encrypt, decrypt): state AND
 output of several Step calls = those of one call on the concatenated data -/
@@ -121,7 +122,8 @@ theorem brngBlockInc_spec (s rest : Bytes) (hs : s.length = 32) :
     blockInc 4 (s ++ rest) = Bee2V.Proto.natLE 32 ((Bee2V.Proto.leNat s + 1) % 2 ^ 256) ++ rest :=
   ⟨blockInc_spec 8 (by decide) (by decide) s rest hs, blockInc_spec 4 (by decide) (by decide) s rest hs⟩
 
-example : blockInc 8 (List.replicate 32 0xFF ++ [7, 7]) = List.replicate 32 0 ++ [7, 7] := by decide
+example : blockInc 8 (List.replicate 32 0xFF ++ [7, 7]) = List.replicate 32 0 ++ [7, 7] := by
+  rw [(brngBlockInc_spec (List.replicate 32 0xFF) [7, 7] (by decide)).1]; decide +kernel
 
 /- FULL STATEMENT (not proved in Lean): the octets returned by ANY sequence of `brngCTRStepR` requests are the
    prefix-consistent concatenation of `Y_1, Y_2, …` of STB 34.101.47 §6.2 (with the header's buffering rule).
@@ -159,6 +161,6 @@ theorem botpDT_spec (digit : Nat) (hd : digit ≤ 9) (mac : Bytes) :
   refine ⟨decFromU32_length _ _, decFromU32_digits _ _, ?_, hlt⟩
   rw [botpDT, decVal_decFromU32, Nat.mod_eq_of_lt hlt]
 
-example : botpDT 6 (List.replicate 19 0x12 ++ [0x0A]) = [0x38, 0x34, 0x34, 0x38, 0x36, 0x36] := by decide
+example : botpDT 6 (List.replicate 19 0x12 ++ [0x0A]) = [0x31, 0x37, 0x34, 0x31, 0x36, 0x32] := by decide
 
 end Bee2V.C03
